@@ -1,3 +1,227 @@
-(* Properties/C04.v — statements only. *)
-From Dnp3V Require Import Outstation.Session Outstation.SessionProofs.
+(* Properties/C04.v — statements only; every proof is `exact <lemma>`.
+   C04: OPERATE actuates only after its own matching, fresh, directly preceding SELECT.
+   Model: Outstation/Session.v (ostep / ostart / orun).  `J s` is the step-boundary invariant of the
+   model (no fragment left in the reader; a deferred READ only in the unsolicited confirm wait): it
+   holds in every reachable state (C04_reach_J). *)
+From Dnp3V Require Import Outstation.Session Outstation.SessionLemmas_c04 Outstation.SessionC04Proofs.
 Open Scope N_scope.
+
+Theorem C04_reach_J : forall cfg s h, Reach cfg s h -> J s.
+Proof. exact reach_J. Qed.
+Print Assumptions C04_reach_J.
+
+(* 1. one step: a select-before-operate callback comes from a unicast OPERATE request accepted by the
+   transport filter while the state holds a select with the preceding sequence number, taken (or last
+   re-based) at the fragment read immediately before, for byte-identical objects, not older than the
+   select timeout *)
+Theorem C04_sbo_operate_needs_matching_select : forall cfg s ev answers g v idx obj,
+  J s -> In (OCb (CbOperate g v idx OpSbo obj)) (snd (ostep cfg s ev answers)) ->
+  exists from bytes d ctl hdrs rh sel,
+    ev = ERx from None bytes d /\
+    to_treq cfg from d = TqRequest ctl fn_operate (ObjOk hdrs rh) /\
+    s_select s = Some sel /\
+    seq16_next (ss_seq sel) = ctl_seq ctl /\
+    (ss_frame_id sel + 1) mod 4294967296 = (s_frame_id s + 1) mod 4294967296 /\
+    ss_objects sel = objects_of bytes /\
+    (s_now s - ss_time sel <= o_select_ms cfg)%Z.
+Proof. exact sbo_operate_needs_matching_select. Qed.
+Print Assumptions C04_sbo_operate_needs_matching_select.
+
+(* the other control callbacks: select only for function 3, direct operate only for function 5 (both
+   unicast), direct operate without acknowledgement only for function 6 (unicast or broadcast) *)
+Theorem C04_control_callback_function : forall cfg s ev answers c,
+  J s -> In (OCb c) (snd (ostep cfg s ev answers)) ->
+  exists from bc bytes d ctl fn hdrs rh,
+    ev = ERx from bc bytes d /\ to_treq cfg from d = TqRequest ctl fn (ObjOk hdrs rh) /\
+    match c with
+    | CbSelect _ _ _ _ => fn = fn_select /\ bc = None
+    | CbOperate _ _ _ OpSbo _ => fn = fn_operate /\ bc = None
+    | CbOperate _ _ _ OpDo _ => fn = fn_direct_operate /\ bc = None
+    | CbOperate _ _ _ OpDoNr _ => fn = fn_direct_operate_nr
+    | _ => True
+    end.
+Proof. exact control_callback_function. Qed.
+Print Assumptions C04_control_callback_function.
+
+(* 2. an OPERATE that does not match (no select, or match_operate refuses): no callback at all in the
+   step, the status is TIMEOUT (1) or NO_SELECT (2), and unless the request is a retransmission of the
+   last request (answered from memory) the response carries the echo with that status in every object *)
+Theorem C04_operate_rejected_echoes_status : forall cfg s from bytes d answers ctl hdrs rh status,
+  J s ->
+  to_treq cfg from d = TqRequest ctl fn_operate (ObjOk hdrs rh) -> all_controls hdrs = true ->
+  operate_verdict cfg s (ctl_seq ctl) ((s_frame_id s + 1) mod 4294967296) bytes = Some status ->
+  let out := snd (ostep cfg s (ERx from None bytes d) answers) in
+  (status = 1 \/ status = 2) /\ no_cb out /\
+  (~ last_matches (s_last s) (ctl_seq ctl) bytes ->
+   exists echo ok cbs st started c f i1 i2,
+     ctl_headers s cfg (o_sol_tx cfg - 4) (CmStatus status) [] 0 false hdrs = (echo, ok, cbs, st, started) /\
+     In (OTx from (c :: f :: i1 :: i2 :: echo)) out).
+Proof. exact operate_rejected_echoes_status. Qed.
+Print Assumptions C04_operate_rejected_echoes_status.
+
+(* 3. where a select state comes from.  A select is never dropped by another fragment: it stays in
+   the state and merely cannot match (stale); hence the clause about the fragments after the SELECT is
+   for LIVE selects (frame id = current frame counter).  Fewer than 2^32 fragments: the counter is a u32
+   (C04_frame_counter_wraps). *)
+Theorem C04_select_state_inv : forall cfg s h sel,
+  Reach cfg s h -> s_select s = Some sel ->
+  exists s0 pre ea mid post bytes,
+    (exists hs ho iin a0, s0 = fst (ostart cfg hs ho iin a0)) /\ s = run_from cfg s0 h /\
+    h = pre ++ ea :: mid ++ post /\
+    select_event cfg (run_from cfg s0 pre) ea (ss_seq sel) bytes (ss_objects sel) (ss_time sel) /\
+    Forall (fun e => is_disc e = false) (mid ++ post) /\
+    s_frame_id s = (ss_frame_id sel + N.of_nat (rx_count post)) mod two32 /\
+    (N.of_nat (rx_count h) < two32 ->
+       Forall (fun e => is_rx e = true -> repeat_of cfg (ss_seq sel) bytes e) mid /\
+       (ss_frame_id sel = s_frame_id s -> Forall (fun e => is_rx e = false) post)).
+Proof. exact select_state_inv. Qed.
+Print Assumptions C04_select_state_inv.
+
+(* without the bound: after exactly 2^32 further fragments the frame counter is back at the select's
+   frame id, and a stale select would match again *)
+Theorem C04_frame_counter_wraps : forall f,
+  f < two32 -> N.iter two32 (fun x => (x + 1) mod two32) f = f.
+Proof. exact frame_id_wrap_refuted. Qed.
+Print Assumptions C04_frame_counter_wraps.
+
+(* 4. the trace theorem (DESIGN.md appendix B) *)
+Theorem C04_operate_sbo_implies_select : forall cfg hs ho iin a0 (evs : hist) k g v idx obj outk,
+  let s0 := fst (ostart cfg hs ho iin a0) in
+  N.of_nat (rx_count (firstn k evs)) < two32 ->
+  nth_error (orun cfg s0 evs) k = Some outk -> In (OCb (CbOperate g v idx OpSbo obj)) outk ->
+  exists j from bytes d ans ctl hdrs rh seqj bytesj timej,
+    (j < k)%nat /\
+    nth_error evs k = Some (ERx from None bytes d, ans) /\
+    to_treq cfg from d = TqRequest ctl fn_operate (ObjOk hdrs rh) /\
+    select_at cfg s0 evs j seqj bytesj (objects_of bytes) timej /\
+    ctl_seq ctl = seq16_next seqj /\
+    (forall m ea, (j < m < k)%nat -> nth_error evs m = Some ea ->
+       is_disc ea = false /\ (is_rx ea = true -> repeat_of cfg seqj bytesj ea)) /\
+    (s_now (state_at cfg s0 evs k) - timej <= o_select_ms cfg)%Z.
+Proof. exact operate_sbo_implies_select. Qed.
+Print Assumptions C04_operate_sbo_implies_select.
+
+(* 5. the converse *)
+Theorem C04_select_then_operate_once :
+  forall cfg s from bytes_s d_s bytes_o d_o ctl_s ctl_o hdrs rh_s rh_o dly a1 a2 a3 a4,
+  J s ->
+  to_treq cfg from d_s = TqRequest ctl_s fn_select (ObjOk hdrs rh_s) ->
+  to_treq cfg from d_o = TqRequest ctl_o fn_operate (ObjOk hdrs rh_o) ->
+  all_controls hdrs = true ->
+  objects_of bytes_o = objects_of bytes_s ->
+  ctl_seq ctl_o = seq16_next (ctl_seq ctl_s) ->
+  ~ last_matches (s_last s) (ctl_seq ctl_s) bytes_s ->
+  s_sel_status s = 0 -> s_op_status s = 0 -> o_max_controls cfg = None ->
+  snd (echo_all (o_sol_tx cfg - 4) [] hdrs 0) = true ->
+  (settle_ms + dly <= o_select_ms cfg)%Z ->
+  let '(s1, out1) := ostep cfg s (ERx from None bytes_s d_s) a1 in
+  let '(s2, out2) := ostep cfg s1 (ESleep dly) a2 in
+  let '(s3, out3) := ostep cfg s2 (ERx from None bytes_o d_o) a3 in
+  let '(s4, out4) := ostep cfg s3 (ERx from None bytes_o d_o) a4 in
+  filter is_cb out1 = bracket (hdr_cbs CmSelect hdrs) /\
+  no_cb out2 /\
+  filter is_cb out3 = bracket (hdr_cbs (CmOperate OpSbo) hdrs) /\
+  no_cb out4.
+Proof. exact select_then_operate_once. Qed.
+Print Assumptions C04_select_then_operate_once.
+
+(* the callbacks between begin and end: one per control object of the request, in order *)
+Theorem C04_operate_callbacks_per_object : forall t hdrs,
+  hdr_cbs (CmOperate t) hdrs =
+  map (fun x => match x with (g, v, idx, obj) => OCb (CbOperate g v idx t obj) end) (ctl_objects hdrs).
+Proof. exact hdr_cbs_operate. Qed.
+Print Assumptions C04_operate_callbacks_per_object.
+
+(* ================= non-vacuity: concrete histories, computed on the model ===================== *)
+
+Definition cfg0 : ocfg := {| o_master := 1; o_any_master := false; o_unsol := false; o_broadcast := true;
+  o_confirm_ms := 5000; o_select_ms := 5000; o_retries := None; o_retry_delay_ms := 0; o_max_controls := None;
+  o_sol_tx := 2048; o_delay_ms := 0; o_cold := None; o_warm := None; o_wtime := 0; o_freeze := 0 |}.
+Definition crob : list N := [3; 1; 100; 0; 0; 0; 100; 0; 0; 0; 0].
+Definition objs : list N := [12; 1; 23; 1; 7] ++ crob.           (* g12v1, qualifier 0x17, one object, index 7 *)
+Definition hd : list whdr := [WCtl 12 1 1 [(7, crob)]].
+Definition sel_ev (seq : N) : oevent := ERx 1 None ([192 + seq; 3] ++ objs) (DOk (192 + seq) 3 RvOk (ObjOk hd [true])).
+Definition op_ev (seq : N) : oevent := ERx 1 None ([192 + seq; 4] ++ objs) (DOk (192 + seq) 4 RvOk (ObjOk hd [true])).
+Definition wr_ev (seq : N) : oevent :=
+  ERx 1 None [192 + seq; 2; 80; 1; 0; 7; 7; 0] (DOk (192 + seq) 2 RvOk (ObjOk [WIin [(7, false)]] [true])).
+Definition ans1 : list answer := [AEvinfo false false false false].
+Definition st0 : ostate := fst (ostart cfg0 0 0 0 []).
+Definition cbs_of (l : list (list oobs)) : list (list oobs) := map (filter is_cb) l.
+Definition c_sel : oobs := OCb (CbSelect 12 1 7 crob).
+Definition c_op : oobs := OCb (CbOperate 12 1 7 OpSbo crob).
+Definition c_b : oobs := OCb CbBeginFragment.
+Definition c_e : oobs := OCb CbEndFragment.
+
+(* the happy path *)
+Example C04_happy_path :
+  cbs_of (orun cfg0 st0 [(sel_ev 5, ans1); (op_ev 6, ans1)]) = [[c_b; c_sel; c_e]; [c_b; c_op; c_e]].
+Proof. vm_compute. reflexivity. Qed.
+
+(* the 4-bit sequence wraps 15 -> 0 *)
+Example C04_sequence_wrap :
+  cbs_of (orun cfg0 st0 [(sel_ev 15, ans1); (op_ev 0, ans1)]) = [[c_b; c_sel; c_e]; [c_b; c_op; c_e]].
+Proof. vm_compute. reflexivity. Qed.
+
+(* the select retransmitted, then operated; the OPERATE retransmitted is not executed again *)
+Example C04_select_retransmitted_then_operated_once :
+  cbs_of (orun cfg0 st0 [(sel_ev 5, ans1); (sel_ev 5, ans1); (op_ev 6, ans1); (op_ev 6, ans1)])
+  = [[c_b; c_sel; c_e]; []; [c_b; c_op; c_e]; []].
+Proof. vm_compute. reflexivity. Qed.
+
+(* one other fragment in between: the select is stale *)
+Example C04_intervening_request_breaks_the_pair :
+  cbs_of (orun cfg0 st0 [(sel_ev 5, ans1); (wr_ev 9, ans1); (op_ev 6, ans1)]) = [[c_b; c_sel; c_e]; []; []].
+Proof. vm_compute. reflexivity. Qed.
+
+(* a stale select does not match again when the sequence numbers have gone round (17 requests) *)
+Example C04_stale_select_does_not_rematch :
+  cbs_of (orun cfg0 st0
+    ((sel_ev 5, ans1) :: map (fun q => (wr_ev q, ans1)) [6; 7; 8; 9; 10; 11; 12; 13; 14; 15; 0; 1; 2; 3; 4; 5]
+     ++ [(op_ev 6, ans1)]))
+  = [c_b; c_sel; c_e] :: repeat [] 17.
+Proof. vm_compute. reflexivity. Qed.
+
+(* the select timeout: the SELECT step takes 1 ms (settle); 4999 ms later is still in time, 5000 ms is not *)
+Example C04_timeout_boundary :
+  cbs_of (orun cfg0 st0 [(sel_ev 5, ans1); (ESleep 4999, []); (op_ev 6, ans1)]) = [[c_b; c_sel; c_e]; []; [c_b; c_op; c_e]] /\
+  cbs_of (orun cfg0 st0 [(sel_ev 5, ans1); (ESleep 5000, []); (op_ev 6, ans1)]) = [[c_b; c_sel; c_e]; []; []].
+Proof. split; vm_compute; reflexivity. Qed.
+
+(* a disconnect between SELECT and OPERATE *)
+Example C04_disconnect_drops_the_select :
+  cbs_of (orun cfg0 st0 [(sel_ev 5, ans1); (EDisconnect, []); (op_ev 6, ans1)]) = [[c_b; c_sel; c_e]; []; []].
+Proof. vm_compute. reflexivity. Qed.
+
+(* an OPERATE without select is answered NO_SELECT (last byte of the object = 2) and nothing is called *)
+Example C04_operate_without_select :
+  orun cfg0 st0 [(op_ev 6, ans1)] =
+  [[OInfo (IIdleRequest 4 6); ODb DbEvinfo;
+    OTx 1 ([198; 129; 128; 0; 12; 1; 23; 1; 7] ++ [3; 1; 100; 0; 0; 0; 100; 0; 0; 0; 2])]].
+Proof. vm_compute. reflexivity. Qed.
+
+(* The two histories on which the first proof attempt of C04_operate_sbo_implies_select failed, found by
+   that attempt and confirmed on the implementation (session.rs re-based the select on the retransmission
+   of ANY non-READ request; repaired, /repo 487019d).  Before the repair the last step of each emitted
+   [c_b; c_op; c_e]. *)
+Example C04_retransmission_of_other_request_does_not_revive :
+  cbs_of (orun cfg0 st0 [(sel_ev 5, ans1); (wr_ev 6, ans1); (wr_ev 6, ans1); (op_ev 6, ans1)])
+  = [[c_b; c_sel; c_e]; []; []; []].
+Proof. vm_compute. reflexivity. Qed.
+
+(* SELECT accepted; another request; the handler now refuses (status 4); the same SELECT is refused (the old
+   select state is kept), its retransmission must not re-base the old select; OPERATE is not executed *)
+Example C04_refused_select_retransmitted_does_not_revive :
+  cbs_of (orun cfg0 st0 [(sel_ev 5, ans1); (wr_ev 9, ans1); (EHandler 4 0, []); (sel_ev 5, ans1);
+                         (sel_ev 5, ans1); (op_ev 6, ans1)])
+  = [[c_b; c_sel; c_e]; []; []; [c_b; c_sel; c_e]; []; []].
+Proof. vm_compute. reflexivity. Qed.
+
+(* the hypotheses of C04_select_then_operate_once hold for these requests in the start-up state *)
+Example C04_converse_hypotheses_satisfiable :
+  J st0 /\ all_controls hd = true /\ snd (echo_all (o_sol_tx cfg0 - 4) [] hd 0) = true /\
+  s_sel_status st0 = 0 /\ s_op_status st0 = 0 /\ s_last st0 = None /\
+  to_treq cfg0 1 (DOk 197 3 RvOk (ObjOk hd [true])) = TqRequest 197 fn_select (ObjOk hd [true]) /\
+  ctl_seq 198 = seq16_next (ctl_seq 197).
+Proof.
+  split; [apply (proj1 (ostart_spec cfg0 0 0 0 []))|]. vm_compute. repeat split; reflexivity.
+Qed.
